@@ -279,7 +279,9 @@ class Contract:
         try:
             key = (self.key(c, *args, **kwargs), self._opnd_sig(c, args, kwargs))
             counts = self.counts(c, *args, **kwargs)
+            n_vars = len(c.g.vars)
             r = self.result(c, *args, **kwargs)
+            result_vars = c.g.vars[n_vars:]
             g = P.fresh("sat_" + self.name.rsplit(".", 1)[-1], "bool")
             for nm, f in self.post(c, r, *args, **kwargs).items():
                 if nm.startswith("canary"):
@@ -289,7 +291,10 @@ class Contract:
                     P.assume(z3.Implies(g, f))
                 else:
                     P.assume(f)
-            c.g.trace.append(gh.Grp(self.name, key, g, counts, checked))
+            grp = gh.Grp(self.name, key, g, counts, checked)
+            grp.result_vars = result_vars
+            grp.witness_like = bool(self.witness_args)
+            c.g.trace.append(grp)
             self.effects(c, r, *args, **kwargs)
         finally:
             world.use_contracts = True
